@@ -511,13 +511,19 @@ class DAGAddEdgesFrom(Contract):
             parts.append(th.acyclic(E))
         return z3.And(*parts)
 
-    # loop 0: for index in range(len(ebunch))     (weights given)
+    # loop 0: for index in range(len(ebunch))  /  for index, edge in enumerate(ebunch)     (weights given)
     def inv0(self, ex, st, args, old, ghost):
         from vf.pyvc.lib import PairAA
         eb = st.env["ebunch"]
         at, idx = ex.seq_of(eb, st)
         done = ghost["done"]
         i = fresh("i", z3.IntSort())
+        dom = done.sort().domain()
+        if dom != z3.IntSort():
+            # the same loop written `for index, edge in enumerate(ebunch)`: the iteration elements are the pairs (i, ebunch[i])
+            mk = dom.constructor(0)
+            return z3.And(self.inv(ex, st, args, old, lambda a, b: z3.Exists([i], z3.And(done[mk(i, PairAA.mk(a, b))], at(i) == PairAA.mk(a, b)))),
+                          z3.ForAll([i, p_ := fresh("e", PairAA)], z3.Implies(done[mk(i, p_)], z3.And(0 <= i, i < eb.len_z, at(i) == p_))))
         return z3.And(self.inv(ex, st, args, old, lambda a, b: z3.Exists([i], z3.And(done[i], at(i) == PairAA.mk(a, b)))),
                       z3.ForAll([i], z3.Implies(done[i], z3.And(0 <= i, i < eb.len_z))))
 
